@@ -13,7 +13,10 @@ RULE = ("histories of 2-6 phases over one, two or three files used alternately i
         "interleaved targets, ANwriteann incl. rewrites longer and shorter, ANreadann with buffer sizes below/at/above "
         "the text length, ANannlen, ANselect, ANfileinfo, ANnumann, ANannlist, ANtagref2id, ANid2tagref, ANget_tagref, "
         "ANendaccess, an identifier bijection probe) or a DFAN phase on the closed file (DFANputlabel/DFANputdesc incl. "
-        "replacement, DFANgetlabel/DFANgetdesc/len, DFANaddfid/DFANaddfds, enumeration of file labels/descriptions, "
+        "replacement, DFANgetlabel/DFANgetdesc/len, DFANaddfid/DFANaddfds, enumeration of file labels/descriptions (as a "
+        "whole loop and call by call: DFANgetfidlen/DFANgetfid/DFANgetfdslen/DFANgetfds with isfirst 1/0, label and "
+        "description enumerations interleaved, with and without the length call, small buffers, beyond the end, "
+        "restarts, after a completed enumeration, on the next file), "
         "DFANlablist); texts of 1..300 bytes, descriptions with arbitrary bytes incl. NUL, labels NUL-free; up to ~25 "
         "annotations per file, several per object; every history ends with a reopen and a full read-back through both "
         "interfaces; all choices from one PRNG (VERIF_SEED); a light shadow state only steers weights; a malformed "
@@ -22,7 +25,8 @@ RULE = ("histories of 2-6 phases over one, two or three files used alternately i
 TRUSTED = ["Coq 8.16.1 kernel", "extraction (ExtrOcamlBasic only; Z/positive/nat inductive)",
            "translator gen/gen_consts.py + plugin gen/plugins/an_tables.py (constants, AN_CREATE_KEY/AN_KEY2REF/"
            "AN_KEY2TYPE, type<->tag switch tables, UINT16ENCODE/DECODE byte expressions, buffer-truncation conditions, the "
-           "DFANIopen same-file test with strncmp/strlen mapped to coq/ANLang.v)",
+           "DFANIopen same-file test with strncmp/strlen mapped to coq/ANLang.v, the cursor/flag/restart conditions of "
+           "DFANIgetfannlen/DFANIgetfann, the ANentry field ANget_tagref reports)",
            "OCaml drivers extract/anspec_main.ml, extract/anmodel_main.ml; C harness harness/drive_an.c; generator and "
            "comparison in checks/C11.py",
            "modelled, not verified: the element layer under the annotations (Hstartwrite/Hwrite/Hread/Hlength/"
@@ -31,16 +35,18 @@ TRUSTED = ["Coq 8.16.1 kernel", "extraction (ExtrOcamlBasic only; Z/positive/nat
 ASSUMPTIONS = ["domain: annotation texts are non-empty; label texts contain no NUL byte; read buffers have >= 1 byte "
                "(DFANlablist: >= 2); the DFAN calls are made while no AN session is open on the file and DFANclear() "
                "is called when an AN session ends (documented usage after a file was changed through another "
-               "interface); one AN session per file at a time; file names are C strings shorter than DF_MAXFNLEN; refs stay far "
+               "interface); an enumeration of file labels/descriptions is continued with isfirst = 0 only on the same file and "
+               "only if no AN session, DFANaddfid/fds or whole enumeration came in between; one AN session per file at a time; file names are C strings shorter than DF_MAXFNLEN; refs stay far "
                "below 65535 (C20 covers the limit)",
                "where an object carries several labels/descriptions the single-annotation DFAN calls may return any "
                "of them (the model M says which one)"]
 
 TARGETS = [(700, 1), (700, 2), (700, 3), (700, 5), (701, 1), (701, 2), (702, 7), (65535, 65535), (1, 1)]
 TYPE_TAG = {0: 104, 1: 105, 2: 100, 3: 101}
-REFOPS = {"create": 3, "createf": 3, "select": 3, "dfputlabel": 2, "dfputdesc": 2, "dfaddfid": 2, "dfaddfds": 2}
+REFOPS = {"create": 3, "createf": 3, "select": 3, "gettagref": 3, "dfputlabel": 2, "dfputdesc": 2, "dfaddfid": 2, "dfaddfds": 2,
+          "dffidlen": 3, "dffdslen": 3, "dffid": 3, "dffds": 3}
 SORTED_TAIL = {"selectall", "annlist", "dfgetfids", "dfgetfdss"}
-NOSPEC = {"gettagref", "atype2tag", "tag2atype"}      # compared with the model only
+NOSPEC = {"atype2tag", "tag2atype"}      # compared with the model only
 
 
 def hexs(b):
@@ -170,7 +176,7 @@ def gen_an_phase(r, sh, lines, malformed, nops):
         elif x < 0.90 and bound:
             lines.append("id2tagref %d" % r.choice(bound))
         elif x < 0.92:
-            t = r.randrange(4)
+            t = r.choice([0, 0, 1, 1, 2, 3])
             lines.append("gettagref %d %d" % (t, r.randrange(0, sh.count(t) + 1)))
         elif x < 0.94 and bound:
             lines.append("endaccess %d" % r.choice(bound))
@@ -255,6 +261,44 @@ def gen_df_burst(r, sh, lines, n):
             lines.append("dflablist %d %d" % (r.choice([700, 701]), r.choice([16, 64])))
 
 
+def gen_fenum(r, shs, lines, switch, nfiles):
+    """the file-annotation enumeration call by call: label and description enumerations interleaved, with and
+    without the length call, fixed and too small buffers, runs to the end and one call beyond, restarts, a whole
+    enumeration before (which leaves the 'exhausted' state behind), and the same on the next file"""
+    for _ in range(r.randrange(1, 4)):
+        f = r.randrange(nfiles)
+        switch(f)
+        sh = shs[f]
+        # an enumeration is only interesting with two or more annotations of a kind
+        for k, t, lab in (("fid", 2, True), ("fds", 3, False)):
+            while sh.count(t) < 2 and r.random() < 0.85:
+                lines.append("dfadd%s %s" % (k, hexs(gen_text(r, lab))))
+                sh.anns.append(dict(type=t, target=None, written=1))
+        if r.random() < 0.35:
+            lines.append(r.choice(["dfgetfids", "dfgetfdss"]))
+        kinds = r.choice([["fid"], ["fds"], ["fid", "fds"], ["fid", "fds"], ["fds", "fid"], ["fds", "fid"]])
+        ul = r.choice([(1, 1), (1, 1), (0, 0), (1, 0), (0, 1)])
+        uselen = {"fid": bool(ul[0]), "fds": bool(ul[1])}
+        started = {k: False for k in kinds}
+        n = {"fid": sh.count(2), "fds": sh.count(3)}
+        steps = r.randrange(2, 2 * (max(n.values()) + 2))
+        for i in range(steps):
+            k = kinds[i % len(kinds)] if r.random() < 0.85 else r.choice(kinds)
+            first = 0 if started[k] and r.random() < 0.93 else 1
+            if uselen[k] or r.random() < 0.15:
+                lines.append("df%slen %d" % (k, first))
+                if r.random() < 0.1:
+                    lines.append("df%slen %d" % (k, 0 if started[k] or first else first))
+                started[k] = True
+                first2 = first if r.random() < 0.5 else 0
+                lines.append("df%s %d %d" % (k, first2, r.choice([400, 400, 64, 17, 5, 2, 1])))
+            else:
+                lines.append("df%s %d %d" % (k, first, r.choice([400, 400, 64, 17, 5, 2, 1])))
+                started[k] = True
+            if r.random() < 0.04:
+                lines.append(r.choice(["dfgetlabel 700 1 9", "dflablist 700 16", "dfputdesc 701 1 4142"]))
+
+
 def gen_history(r, name, malformed=False):
     lines = ["history " + name]
     nfiles = r.choice([1, 1, 2, 2, 2, 3, 3])
@@ -286,7 +330,9 @@ def gen_history(r, name, malformed=False):
                 lines.append(tmp[-1])
             else:
                 lines.extend(tmp)
-        elif x < 0.60 or nfiles == 1:
+        elif x < 0.47:
+            gen_fenum(r, shs, lines, switch, nfiles)
+        elif x < 0.64 or nfiles == 1:
             switch(f)
             gen_df_phase(r, shs[f], lines, malformed, r.randrange(2, 14))
         else:
@@ -310,7 +356,19 @@ def gen_history(r, name, malformed=False):
                 s += 1
         for tg in TARGETS[:4]:
             lines.append("annlist %d %d %d" % (r.choice([0, 1]), tg[0], tg[1]))
+        for t in range(4):
+            for i in range(min(sh.count(t) + 1, 4)):
+                lines.append("gettagref %d %d" % (t, i))
         lines += ["ids", "end", "dfgetfids", "dfgetfdss", "dflablist 700 64"]
+        # the same enumerations call by call, labels and descriptions interleaved, without the length calls
+        nn = max(sh.count(2), sh.count(3)) + 1
+        for i in range(min(nn, 6)):
+            lines.append("dffid %d 400" % (1 if i == 0 else 0))
+            lines.append("dffds %d 400" % (1 if i == 0 else 0))
+        for i in range(min(nn, 6)):                      # and with the length calls
+            for k in ("fid", "fds"):
+                lines.append("df%slen %d" % (k, 1 if i == 0 else 0))
+                lines.append("df%s %d 400" % (k, 1 if i == 0 else 0))
     for _ in range(2 if nfiles > 1 else 1):
         for f in range(nfiles):
             switch(f)
